@@ -102,7 +102,7 @@ fn is_write(kind: Kind) -> bool {
 }
 
 /// Step budget of a single sequential call of the subject (hooked atomic operations)
-pub const CALL_BUDGET: u64 = 2_000_000;
+pub const CALL_BUDGET: u64 = 1_000_000;
 
 fn hook_point(kind: Kind, addr: usize, size: usize) {
     let ev = Event { kind, addr, size };
